@@ -25,25 +25,34 @@
  *          Nothing is demanded when validation does not succeed.
  *   I/O fault (i,s): the i-th medium call of the operation transfers only its
  *       first s < len octets and returns s (s = 0: plain failure); or it
- *       transfers nothing and answers with more than it was asked for (len+1,
- *       SIZE_MAX = what a driver built on pread/pwrite hands back for -1, and
- *       len+2^8, len+2^16, len+2^32: equal to the request in a narrower type).
+ *       transfers nothing and answers (size_t)-1 = SIZE_MAX, the conventional
+ *       failure answer of a transfer callback (what a driver built on
+ *       pread/pwrite hands back for -1).  Other answers larger than the request
+ *       (len+1, len+2^k) are neither a failure nor a short transfer in the
+ *       statement's words and are not generated.
  *       O: the operation returns PERSISTENT_ACCESS_IO_ERROR.
  *       For store, store_part and reset a fresh instance then validates the
  *       medium the failed operation left behind (x the 3 image pairs):
  *       validate = success  =>  checksum octets = reference checksum of the data
  *       image on the medium; if the failing call transferred nothing or was a
  *       read (every write that happened is whole)  =>  fetch returns exactly the
- *       previous or exactly the new image; if it was a torn write and the
- *       library went on changing the medium after it: the mixed image it left
- *       must not validate unless the torn state itself (medium at the moment of
- *       the fault) already did - a failing store must not make a mixed image
- *       valid by rewriting the checksum over it.
+ *       previous or exactly the new image.  If it was a torn write and the
+ *       library went on changing the medium after it such that a mixed image
+ *       validates that did not validate in the torn state (it re-sealed the
+ *       checksum over the half-written data), that is *logged* and classed
+ *       fault-then-resealed-mixed, not reported: the error was reported and the
+ *       checksum does match the data on the medium, no sentence is broken.
+ *
+ * Vacuity is guarded with classes that describe what the *harness* did to the
+ * library (env-...: a cut fired at a write boundary / inside a write, a failed /
+ * short / (size_t)-1 read or write was injected), recorded next to the case's
+ * outcome class; what the library made of it (cut-valid-old, torn-invalid, ...)
+ * depends on its admissible internal order and is not required.
  *
  * Zero-length parts (offset 0..N, length 0) are stores/fetches too; a library
  * that refuses them is accepted (class zero-length-refused, no cap).  A
  * zero-length medium access touches no octet: inside the region at any address,
- * and never the target of an over-long answer.
+ * and never the target of a (size_t)-1 answer.
  *
  * Image pairs (previous P, new Q; both stored fault-free => valid) are chosen
  * so that the implication is not vacuous: besides a generic pair, one pair
@@ -166,14 +175,14 @@ static struct {
     uint64_t lo;
     /* accounting of the operation under observation */
     long calls, writes, budget;
-    size_t maxlen, maxwrite;
+    size_t maxlen, maxwrite, maxread;
     long outside;
     /* the deviation */
     int plan;
     long at;      /* PLAN_CUT: ordinal among write calls; PLAN_FAULT: among all calls */
     size_t t;     /* octets applied / transferred by the deviating call */
     int over;     /* PLAN_FAULT: 0 short transfer of t octets; 1..NOVER nothing transferred,
-                     over-long answer (OVER_NAME) */
+                     failure answer OVER_NAME */
     unsigned char *snap; /* region image at the moment the fault was injected */
     bool snapped;
     bool fired;
@@ -183,24 +192,10 @@ static struct {
     jmp_buf escape;
 } M;
 
-/* over-long answers of a failing driver (nothing is transferred): 1 len+1,
- * 2 SIZE_MAX ((size_t)-1), 3..5 len+2^8 / len+2^16 / len+2^32 (equal to the
- * request in a narrower type) */
-#define NOVER 5
-static const size_t OVER_EXCESS[NOVER + 1] = { 0, 1, 0, 256, 65536,
-#if SIZE_MAX > 0xffffffffu
-                                               (size_t)1 << 32
-#else
-                                               (size_t)1 << 24
-#endif
-};
-static const char *const OVER_NAME[NOVER + 1] = { "", "len+1", "SIZE_MAX", "len+256", "len+65536",
-#if SIZE_MAX > 0xffffffffu
-                                                  "len+2^32"
-#else
-                                                  "len+2^24"
-#endif
-};
+/* failure answers of a driver other than a short count (nothing is
+ * transferred): 1 SIZE_MAX = (size_t)-1 */
+#define NOVER 1
+static const char *const OVER_NAME[NOVER + 1] = { "", "SIZE_MAX" };
 
 static bool
 med_inside(uint32_t addr, size_t n)
@@ -228,6 +223,8 @@ med_deviation(char rw, uint32_t addr, const void *src, size_t n, size_t *answer)
         M.maxlen = n;
     if (rw == 'w' && n > M.maxwrite)
         M.maxwrite = n;
+    if (rw == 'r' && n > M.maxread)
+        M.maxread = n;
     if (!med_inside(addr, n)) {
         M.outside++;
         *answer = 0;
@@ -254,7 +251,7 @@ med_deviation(char rw, uint32_t addr, const void *src, size_t n, size_t *answer)
         M.fired = true;
         M.fired_rw = rw;
         M.fired_len = n;
-        *answer = (M.over == 2) ? SIZE_MAX : n + OVER_EXCESS[M.over];
+        *answer = SIZE_MAX;
         mc_log("    FAULT: transfers nothing of %zu octets, answers %s", n, OVER_NAME[M.over]);
         return 0;
     }
@@ -370,6 +367,27 @@ static bool failed_here;
         failed_here = true;                                                    \
     } while (0)
 
+/* A second class for the running case, next to the one mc_end() records: what
+ * the harness did to the library in this case (cut fired at a write boundary,
+ * short read injected, ...).  These classes depend on the enumeration only (and
+ * on the library making reads and writes at all), not on what the library makes
+ * of the deviation; they are the ones the vacuity guard requires. */
+static void
+env_class(const char *cls)
+{
+    if (!mc.active)
+        return;
+    int k;
+    for (k = 0; k < mc.noutcomes; ++k)
+        if (mc.outcomes[k] == cls || !strcmp(mc.outcomes[k], cls))
+            break;
+    if (k == mc.noutcomes && mc.noutcomes < MC_MAX_OUTCOMES)
+        mc.outcomes[mc.noutcomes++] = cls;
+    if (k < MC_MAX_OUTCOMES)
+        mc.outcome_count[k]++;
+    mc_log("  class %s", cls);
+}
+
 /* The fault-free baseline of a case did not behave (store of the previous or
  * new image fails, livelock without any deviation, access outside the region).
  * That is C10's subject, not a sentence of C11: no violation is recorded here,
@@ -386,7 +404,7 @@ precondition_failed(const char *what)
     }
 }
 
-static int next_over; /* kind of over-long answer of the next PLAN_FAULT operation (see M.over) */
+static int next_over; /* kind of failure answer of the next PLAN_FAULT operation (see M.over) */
 
 /* One library operation under deviation plan (plan, at, t).  Returns how the
  * call ended: 0 returned, 1 power cut, 2 call budget exhausted. */
@@ -396,7 +414,7 @@ run_op(struct inst *in, int op, void *buf, size_t off, size_t n, int plan, long 
 {
     struct call c = { op, &in->s, buf, off, n, PERSISTENT_ACCESS_SUCCESS };
     M.calls = M.writes = 0;
-    M.maxlen = M.maxwrite = 0;
+    M.maxlen = M.maxwrite = M.maxread = 0;
     M.outside = 0;
     M.budget = 8 * (long)M.size + 32;
     M.plan = plan;
@@ -562,6 +580,10 @@ crash_cases(const struct cfg *c, int op, size_t off, size_t len)
                     if (M.maxwrite > tcap)
                         mc_cap("%s made a medium write of %zu octets, tearing enumerated up to %zu", od,
                                M.maxwrite, tcap);
+                    /* a library that writes even a full image of two or more octets
+                     * one octet per call has no write a cut could tear */
+                    if (op == OP_STORE && c->N >= 2 && M.maxwrite < 2)
+                        env_class("env-cut-torn-write");
                 }
             }
             world_free(&w);
@@ -590,6 +612,7 @@ crash_cases(const struct cfg *c, int op, size_t off, size_t len)
                     const bool whole = (t == 0 || t == cutlen);
                     nontrivial = true;
                     outcome = "cut-validate-other";
+                    env_class(whole ? "env-cut-at-write-boundary" : "env-cut-torn-write");
                     mc_log_hex("  region after the cut", M.img, M.size);
                     /* power is back: fresh instance over the same medium */
                     inst_free(&w.in);
@@ -674,18 +697,22 @@ after_fault(struct world *w, const struct cfg *c, int op, bool whole)
              fhow ? "did not return" : "returned", (int)f);
     } else if (M.snapped && memcmp(M.snap, M.img, M.size) != 0) {
         /* torn write, and the library changed the medium after it: did the torn
-         * state validate by itself? */
+         * state validate by itself?  (observation only) */
         unsigned char *now = mc_exact_copy(M.img, M.size);
         memcpy(M.img, M.snap, M.size);
         PersistentAccess v0 = PERSISTENT_ACCESS_IO_ERROR;
         const int vhow = run_op(&w->in, OP_VALIDATE, NULL, 0, 0, PLAN_NONE, 0, 0, &v0);
         memcpy(M.img, now, M.size);
         free(now);
-        if (vhow != 0 || v0 != PERSISTENT_ACCESS_SUCCESS)
-            FAIL("C11/failing-store-validates-mixed-image",
-                 "the medium write of %s was torn, the torn state did not validate, but what the failed "
-                 "operation wrote afterwards makes the mixed image (neither previous nor new) validate",
-                 OPNAME[op]);
+        if (vhow != 0 || v0 != PERSISTENT_ACCESS_SUCCESS) {
+            /* an observation, not a violation: the failure was reported, and the
+             * checksum on the medium does match the data on the medium */
+            mc_log("  OBSERVATION: the medium write of %s was torn, the torn state did not validate, but what "
+                   "the failed operation wrote afterwards makes the mixed image (neither previous nor new) "
+                   "validate: checksum re-sealed over a half-written image after a reported failure",
+                   OPNAME[op]);
+            outcome = "fault-then-resealed-mixed";
+        }
     }
     return outcome;
 }
@@ -722,6 +749,12 @@ fault_cases(const struct cfg *c, int op, size_t off, size_t len)
                 if (M.maxlen > scap)
                     mc_cap("%s made a medium call of %zu octets, short transfers enumerated below %zu",
                            od, M.maxlen, scap);
+                /* a library that moves even a full image of two or more octets one
+                 * octet per call has no call that could transfer short (0 < s < len) */
+                if (op == OP_STORE && c->N >= 2 && M.maxwrite < 2)
+                    env_class("env-fault-short-write");
+                if (op == OP_FETCH && c->N >= 2 && M.maxread < 2)
+                    env_class("env-fault-short-read");
             }
         }
         world_free(&w);
@@ -745,8 +778,16 @@ fault_cases(const struct cfg *c, int op, size_t off, size_t len)
                     next_over = over;
                     how = world_op(&w, c, op, off, len, PLAN_FAULT, i, s, &rc);
                 }
-                const char *answered = over ? "answered more than asked with nothing transferred"
+                const char *answered = over ? "answered (size_t)-1 with nothing transferred"
                                             : "transferred short";
+                if (how >= 0 && M.fired) {
+                    if (M.fired_rw == 'r')
+                        env_class(over ? "env-fault-minus1-read"
+                                       : (s ? "env-fault-short-read" : "env-fault-failed-read"));
+                    else
+                        env_class(over ? "env-fault-minus1-write"
+                                       : (s ? "env-fault-short-write" : "env-fault-failed-write"));
+                }
                 if (how == 2 && !M.fired) {
                     precondition_failed("operation does not return on a fault-free medium");
                 } else if (how == 2) {
@@ -769,10 +810,10 @@ fault_cases(const struct cfg *c, int op, size_t off, size_t len)
                              "%s (%zu)", od, (int)rc, M.fired_rw == 'r' ? "read" : "write",
                              M.fired_len, answered, s);
                     if (M.fired_rw == 'r')
-                        outcome = over ? "io-error-overlong-read"
+                        outcome = over ? "io-error-minus1-read"
                                        : (s ? "io-error-short-read" : "io-error-failed-read");
                     else
-                        outcome = over ? "io-error-overlong-write"
+                        outcome = over ? "io-error-minus1-write"
                                        : (s ? "io-error-short-write" : "io-error-failed-write");
                     if (stores && !failed_here) {
                         const bool whole = (M.fired_rw == 'r') || s == 0;
@@ -879,7 +920,7 @@ main(int argc, char **argv)
              "data sizes 1..%zu x placements %s x {default sum16, CRC-16/ARC, sum32} x auxiliary buffer %s: "
              "every store / store_part(offset,len>=0) x 3 image pairs x every write call x every t in 0..len; "
              "every operation (parts incl. length 0) x every medium call x every short count 0..len-1 and the "
-             "over-long answers len+1, SIZE_MAX, len+2^8, len+2^16, len+2^32 (one fault per execution), stores x 3 image pairs with a "
+             "failure answer (size_t)-1 (one fault per execution), stores x 3 image pairs with a "
              "fresh validate/fetch of the medium the failed operation left",
              nmax, mc_thorough() ? "{0,1,7,100,straddling 2^16,straddling 2^31,ending at 2^32}"
                                  : "{0,100,ending at 2^32}",
